@@ -85,10 +85,54 @@ func layoutViolations(f layoutFile) []string {
 	if !hasInclude("include if exists <local/" + name + ">") {
 		v = append(v, "no 'include if exists <local/"+name+">'")
 	}
-	for _, m := range reSubProfile.FindAllStringSubmatch(f.Text, -1) {
-		inc := "include if exists <local/" + name + "_" + m[1] + ">"
-		if !hasInclude(inc) {
-			v = append(v, "sub-profile "+m[1]+": no '"+inc+"'")
+	// block-aware: the include of a sub-profile must stand inside that sub-profile's
+	// own block (between its header and the closing brace at the header's indentation)
+	lines := strings.Split(f.Text, "\n")
+	for i, l := range lines {
+		m := reSubProfile.FindStringSubmatch(l)
+		if m == nil {
+			continue
+		}
+		indent := l[:len(l)-len(strings.TrimLeft(l, " "))]
+		inc := indent + "  include if exists <local/" + name + "_" + m[1] + ">"
+		found := false
+		for j := i + 1; j < len(lines); j++ {
+			if lines[j] == indent+"}" {
+				break
+			}
+			if strings.TrimSpace(lines[j]) == strings.TrimSpace(inc) {
+				found = true
+			}
+		}
+		if !found {
+			v = append(v, "sub-profile "+m[1]+": no '"+strings.TrimSpace(inc)+"' inside its block")
+		}
+	}
+	// ... and the profile's own include inside the main block, not in a sub-profile
+	if header != nil {
+		depthOK := false
+		inMain, depth := false, 0
+		for _, l := range lines {
+			t := strings.TrimSpace(l)
+			if !inMain {
+				if strings.HasPrefix(l, "profile "+name+" ") || l == "profile "+name+"{" {
+					inMain, depth = true, 1
+				}
+				continue
+			}
+			if strings.HasSuffix(t, "{") && !strings.HasPrefix(t, "#") {
+				depth++
+			} else if t == "}" {
+				depth--
+				if depth == 0 {
+					break
+				}
+			} else if depth == 1 && t == "include if exists <local/"+name+">" {
+				depthOK = true
+			}
+		}
+		if hasInclude("include if exists <local/"+name+">") && !depthOK {
+			v = append(v, "'include if exists <local/"+name+">' is not inside the main profile block")
 		}
 	}
 	return v
@@ -210,7 +254,7 @@ func TestC19_Scanner(t *testing.T) {
 	rapid.Check(t, func(t *rapid.T) {
 		f := conforming[rapid.IntRange(0, len(conforming)-1).Draw(t, "file")]
 		name := strings.TrimSuffix(filepath.Base(f.Rel), ".apparmor.d")
-		edit := pick(t, "edit", []string{"drop-local", "rename-local", "rename-profile", "abi", "literal-attachment", "drop-execdef", "sub-local", "duplicate"})
+		edit := pick(t, "edit", []string{"drop-local", "rename-local", "rename-profile", "abi", "literal-attachment", "drop-execdef", "sub-local", "sub-local-moved", "duplicate"})
 		m := f
 		applicable := true
 		switch edit {
@@ -233,6 +277,15 @@ func TestC19_Scanner(t *testing.T) {
 			applicable = sub != nil
 			if sub != nil {
 				m.Text = strings.Replace(f.Text, "include if exists <local/"+name+"_"+sub[1]+">", "", 1)
+			}
+		case "sub-local-moved":
+			// the sub-profile's include is moved next to the main one, outside its block
+			sub := reSubProfile.FindStringSubmatch(f.Text)
+			applicable = sub != nil
+			if sub != nil {
+				inc := "include if exists <local/" + name + "_" + sub[1] + ">"
+				without := regexp.MustCompile(`(?m)^ +`+regexp.QuoteMeta(inc)+`\n`).ReplaceAllString(f.Text, "")
+				m.Text = strings.Replace(without, "  include if exists <local/"+name+">", "  "+inc+"\n  include if exists <local/"+name+">", 1)
 			}
 		case "duplicate":
 			other := layoutFile{Rel: "apparmor.d/groups/verif-other/" + filepath.Base(f.Rel), Kind: "profile", Text: f.Text}
